@@ -115,6 +115,19 @@ NEEDS = {
  "C13-r4m2": ("a dump_data() snapshot that holds closed chunks keeps a clone of the directory lock", "a multi-chunk store, dump_data(), the snapshot kept alive past the drop of the store, then a reopen"),
  "C14-r4m1": ("purge() schedules every closed chunk whose last index <= upto (filter) instead of the oldest-first prefix", "truncate spanning a rotation (non-monotonic closing indexes), purge between the two ends, flush, ack, drop, reopen"),
  "C14-r4m2": ("a failed write_all no longer ends the worker", "one worker write failing, the caller continuing with successful flushes, drop, reopen"),
+ # round 5
+ "C01-r5m1": ("RaftLogState::commit stores min(supplied log id, last)", "a commit whose log id is ahead of the local last log (or on an empty log)"),
+ "C01-r5m2": ("PurgeUpto in the state machine clears the whole index when the purge id >= last by log id", "a purge id with a newer term than the last stored log but a smaller index, with entries above that index"),
+ "C06-r5m1": ("records are encoded into a staging buffer that is not emptied when validation refuses the record", "a refused write, then an accepted write, flush, restart"),
+ "C06-r5m2": ("truncate() drops cached payloads from the given index on before it resolves the kept log id", "a purged prefix, then a refused truncate(i) with 1 <= i <= purged.index"),
+ "C10-r5m1": ("open() also drops a newest chunk that was truncated back to just its head State record", "all older chunks purged and removed, then a cut or zero tail right after the head record of the only chunk"),
+ "C10-r5m2": ("verify_trailing_zeros compares a global offset with the file size and returns false instead of an error", "a newest chunk that does not start at offset 0 and a zero tail (>= 28 bytes) shorter than the chunk's global start"),
+ "C12-r5m1": ("RaftLogState::decode accepts version 0 (a 'legacy' layout without user_data)", "a State record with version byte 0, a body one field shorter and a matching checksum"),
+ "C12-r5m2": ("WALRecord::decode matches only the last byte of the 4-byte type tag", "non-zero upper tag bytes with a matching checksum"),
+ "C15-r5m1": ("try_evict remembers that it stopped at a pinned entry and returns at once until the boundary is set again", "a binding limit, a pass that stopped at a pinned entry, a truncate into the synced chunk, re-appends at or below the stale boundary"),
+ "C15-r5m2": ("truncate_after fast path empties the map without resetting the byte counter", "a synced and evicted prefix, pinned entries resident, a truncate to a point inside the evicted range"),
+ "C16-r5m1": ("assert! in set_last_evictable that the boundary never moves backwards", "a chunk closed with a high-term last id, truncate, lower-term re-append, that chunk closed too, one more sync; then any cache-touching call or a restart"),
+ "C16-r5m2": ("is_open_chunk_full computes chunk_max_records - records_count without saturating", "restart with chunk_max_records smaller than the number of records in the re-used newest chunk, then any write"),
 }
 
 def main():
